@@ -1361,3 +1361,498 @@ Proof.
   - apply map_ext_in'. intros u _. unfold b_right_degree. rewrite Hrn. reflexivity.
   - apply map_ext_in'. intros u _. unfold b_left_degree. rewrite Hln. reflexivity.
 Qed.
+
+(* ====================================================================== 8. networkx round trip on the model
+   to_networkx hands (vertex count, edge listing) to networkx; from_networkx builds a fresh
+   object and feeds it networkx's edge list, which may come in any order and, for undirected
+   graphs, in either orientation.  Every view of the rebuilt object equals the original's. *)
+Lemma a_add_n k A u v : a_n (fst (a_add k A u v)) = a_n A /\ a_r (fst (a_add k A u v)) = a_r A.
+Proof. unfold a_add. destruct (a_valid k A u v); cbn; auto. Qed.
+
+Lemma a_add_valid_E k A u v : a_valid k A u v = true ->
+  snd (a_add k A u v) = Ok /\ a_E (fst (a_add k A u v)) = set_add (a_norm k u v) (a_E A).
+Proof. intros H. unfold a_add. rewrite H. cbn. auto. Qed.
+
+Lemma norm_eq_cases x y u v : (Z.min x y, Z.max x y) = (Z.min u v, Z.max u v) <-> (x, y) = (u, v) \/ (x, y) = (v, u).
+Proof.
+  split.
+  - intros H. inversion H. destruct (Z_lt_le_dec x y), (Z_lt_le_dec u v); [left | right | right | left]; f_equal; lia.
+  - intros [H | H]; inversion H; subst; f_equal; lia.
+Qed.
+
+Lemma g_add_edge_valid s u v : g_inv s -> g_valid s u v = true ->
+  let s' := fst (g_add_edge s u v) in
+  g_inv s' /\ snd (g_add_edge s u v) = Ok /\ g_n s' = g_n s /\
+  forall x y, In (x, y) (g_es s') <-> In (x, y) (g_es s) \/ (x, y) = (u, v) \/ (x, y) = (v, u).
+Proof.
+  intros I V s'. destruct (g_add_edge_ok s u v I) as [I' [HA [HO _]]].
+  destruct (a_add_valid_E KSimple (g_abs s) u v V) as [E1 E2].
+  split; [auto | split; [congruence | split]].
+  - subst s'. change (g_n (fst (g_add_edge s u v))) with (a_n (g_abs (fst (g_add_edge s u v)))).
+    rewrite HA. apply a_add_n.
+  - intros x y. subst s'. rewrite (g_has_norm _ x y I').
+    change (filter ltp (g_es (fst (g_add_edge s u v)))) with (a_E (g_abs (fst (g_add_edge s u v)))).
+    rewrite HA, E2, set_add_In. cbn [a_norm]. rewrite norm_eq_cases.
+    change (a_E (g_abs s)) with (filter ltp (g_es s)). rewrite <- (g_has_norm s x y I). tauto.
+Qed.
+
+Lemma g_add_from_valid l : forall s, g_inv s -> (forall u v, In (u, v) l -> g_valid s u v = true) ->
+  let s' := fst (add_from g_add_edge s l) in
+  g_inv s' /\ snd (add_from g_add_edge s l) = Ok /\ g_n s' = g_n s /\
+  forall x y, In (x, y) (g_es s') <-> In (x, y) (g_es s) \/ In (x, y) l \/ In (y, x) l.
+Proof.
+  induction l as [| [u v] r IH]; intros s I Hv; cbn [add_from].
+  - cbn [fst snd In]. split; [auto | split; [auto | split; [auto | intros; tauto]]].
+  - destruct (g_add_edge_valid s u v I) as [I' [HO [Hn HE]]]; [apply Hv; left; auto |].
+    destruct (g_add_edge s u v) as [s1 o]. cbn [fst snd] in *. subst o.
+    destruct (IH s1 I') as [J1 [J2 [J3 J4]]].
+    { intros a b Hab. unfold g_valid. rewrite Hn. apply (Hv a b). right; auto. }
+    split; [auto | split; [auto | split; [congruence |]]].
+    intros x y. rewrite J4, HE. cbn [In]. split.
+    + intros [[H | [H | H]] | [H | H]]; auto; inversion H; subst; auto.
+    + intros [H | [[H | H] | [H | H]]]; auto; inversion H; subst; auto.
+Qed.
+
+Lemma g_roundtrip_general s l : g_inv s ->
+  (forall u v, In (u, v) (g_es s) <-> In (u, v) l \/ In (v, u) l) ->
+  exists s', g_from_nx (g_n s) l = Some (s', Ok) /\ g_inv s' /\ g_view s' = g_view s.
+Proof.
+  intros I Hl. unfold g_from_nx.
+  destruct (g_init (g_n s)) as [s0 |] eqn:E0.
+  2:{ apply g_init_refused in E0. pose proof (gi_n s I). lia. }
+  destruct (g_init_ok _ _ E0) as [I0 A0].
+  assert (N0 : g_n s0 = g_n s) by (change (g_n s0) with (a_n (g_abs s0)); rewrite A0; reflexivity).
+  assert (E00 : g_es s0 = []).
+  { unfold g_init in E0. destruct (g_n s <? 0); inversion E0. reflexivity. }
+  destruct (g_add_from_valid l s0 I0) as [J1 [J2 [J3 J4]]].
+  { intros u v Huv. assert (H : In (u, v) (g_es s)) by (apply Hl; auto).
+    destruct (gi_range s I u v H) as [Hu [Hv Hne]]. unfold g_valid, between. rewrite N0. lia. }
+  exists (fst (add_from g_add_edge s0 l)). split; [| split; auto].
+  - destruct (add_from g_add_edge s0 l) as [s' o]. cbn [fst snd] in *. subst o. reflexivity.
+  - apply g_views_determined; auto; [congruence |].
+    intros [x y]. cbn [g_abs a_E]. rewrite !filter_In. rewrite J4, E00, Hl. cbn [In]. tauto.
+Qed.
+
+(* the edge list to_networkx actually hands over *)
+Lemma g_roundtrip s : g_inv s ->
+  exists s', g_from_nx (fst (g_to_nx s)) (snd (g_to_nx s)) = Some (s', Ok) /\ g_inv s' /\ g_view s' = g_view s.
+Proof.
+  intros I. cbn [g_to_nx fst snd]. apply g_roundtrip_general; auto.
+  intros u v. destruct (g_view_edges s I) as [_ HE]. rewrite !HE. cbn [g_abs a_E]. rewrite !filter_In, !ltp_pair.
+  split.
+  - intros H. destruct (gi_range s I u v H) as [_ [_ Hne]].
+    destruct (Z_lt_le_dec u v); [left; split; [auto | lia] | right; split; [apply (gi_sym s I); auto | lia]].
+  - intros [[H _] | [H _]]; [auto | apply (gi_sym s I); auto].
+Qed.
+
+Lemma d_add_edge_valid s u v : d_inv s -> d_valid s u v = true ->
+  let s' := fst (d_add_edge s u v) in
+  d_inv s' /\ snd (d_add_edge s u v) = Ok /\ d_n s' = d_n s /\
+  forall e, In e (d_es s') <-> e = (u, v) \/ In e (d_es s).
+Proof.
+  intros I V s'. destruct (d_add_edge_ok s u v I) as [I' [HA [HO _]]].
+  destruct (a_add_valid_E KDirected (d_abs s) u v V) as [E1 E2].
+  split; [auto | split; [congruence | split]].
+  - subst s'. change (d_n (fst (d_add_edge s u v))) with (a_n (d_abs (fst (d_add_edge s u v)))).
+    rewrite HA. apply a_add_n.
+  - intros e. subst s'. change (d_es (fst (d_add_edge s u v))) with (a_E (d_abs (fst (d_add_edge s u v)))).
+    rewrite HA, E2, set_add_In. reflexivity.
+Qed.
+
+Lemma d_add_from_valid l : forall s, d_inv s -> (forall u v, In (u, v) l -> d_valid s u v = true) ->
+  let s' := fst (add_from d_add_edge s l) in
+  d_inv s' /\ snd (add_from d_add_edge s l) = Ok /\ d_n s' = d_n s /\
+  forall e, In e (d_es s') <-> In e (d_es s) \/ In e l.
+Proof.
+  induction l as [| [u v] r IH]; intros s I Hv; cbn [add_from].
+  - cbn [fst snd In]. split; [auto | split; [auto | split; [auto | intros; tauto]]].
+  - destruct (d_add_edge_valid s u v I) as [I' [HO [Hn HE]]]; [apply Hv; left; auto |].
+    destruct (d_add_edge s u v) as [s1 o]. cbn [fst snd] in *. subst o.
+    destruct (IH s1 I') as [J1 [J2 [J3 J4]]].
+    { intros a b Hab. unfold d_valid. rewrite Hn. apply (Hv a b). right; auto. }
+    split; [auto | split; [auto | split; [congruence |]]].
+    intros e. rewrite J4, HE. cbn [In]. split.
+    + intros [[H | H] | H]; auto.
+    + intros [H | [H | H]]; auto.
+Qed.
+
+Lemma d_roundtrip_general s l : d_inv s -> (forall e, In e l <-> In e (d_es s)) ->
+  exists s', d_from_nx (d_n s) l = Some (s', Ok) /\ d_inv s' /\ d_view s' = d_view s.
+Proof.
+  intros I Hl. unfold d_from_nx.
+  destruct (d_init (d_n s)) as [s0 |] eqn:E0.
+  2:{ apply d_init_refused in E0. pose proof (di_n s I). lia. }
+  destruct (d_init_ok _ _ E0) as [I0 A0].
+  assert (N0 : d_n s0 = d_n s) by (change (d_n s0) with (a_n (d_abs s0)); rewrite A0; reflexivity).
+  assert (E00 : d_es s0 = []) by (change (d_es s0) with (a_E (d_abs s0)); rewrite A0; reflexivity).
+  destruct (d_add_from_valid l s0 I0) as [J1 [J2 [J3 J4]]].
+  { intros u v Huv. apply Hl in Huv. destruct (di_range s I u v Huv) as [Hu Hv].
+    unfold d_valid, between. rewrite N0. lia. }
+  exists (fst (add_from d_add_edge s0 l)). split; [| split; auto].
+  - destruct (add_from d_add_edge s0 l) as [s' o]. cbn [fst snd] in *. subst o. reflexivity.
+  - apply d_views_determined; auto; [congruence |].
+    intros e. cbn [d_abs a_E]. rewrite J4, E00, Hl. cbn [In]. tauto.
+Qed.
+
+Lemma d_roundtrip s : d_inv s ->
+  exists s', d_from_nx (fst (d_to_nx s)) (snd (d_to_nx s)) = Some (s', Ok) /\ d_inv s' /\ d_view s' = d_view s.
+Proof.
+  intros I. cbn [d_to_nx fst snd]. apply d_roundtrip_general; auto.
+  intros e. destruct (d_view_edges s I) as [_ HE]. rewrite HE. reflexivity.
+Qed.
+
+(* bipartite: left vertices keep their number, right vertex v becomes v + L in networkx *)
+Definition nx_wf (L R x y : Z) : Prop :=
+  (1 <= x <= L /\ L + 1 <= y <= L + R) \/ (L + 1 <= x <= L + R /\ 1 <= y <= L).
+
+Lemma b_add_edge_valid s u v : b_inv s -> b_valid s u v = true ->
+  let s' := fst (b_add_edge s u v) in
+  b_inv s' /\ snd (b_add_edge s u v) = Ok /\ b_l s' = b_l s /\ b_r s' = b_r s /\
+  forall e, In e (b_es s') <-> e = (u, v) \/ In e (b_es s).
+Proof.
+  intros I V s'. destruct (b_add_edge_ok s u v I) as [I' [HA [HO _]]].
+  destruct (a_add_valid_E KBipartite (b_abs s) u v V) as [E1 E2].
+  split; [auto | split; [congruence | split; [| split]]].
+  - subst s'. change (b_l (fst (b_add_edge s u v))) with (a_n (b_abs (fst (b_add_edge s u v)))).
+    rewrite HA. apply a_add_n.
+  - subst s'. change (b_r (fst (b_add_edge s u v))) with (a_r (b_abs (fst (b_add_edge s u v)))).
+    rewrite HA. apply a_add_n.
+  - intros e. subst s'. change (b_es (fst (b_add_edge s u v))) with (a_E (b_abs (fst (b_add_edge s u v)))).
+    rewrite HA, E2, set_add_In. reflexivity.
+Qed.
+
+Lemma b_from_nx_edges_ok l : forall s, b_inv s -> (forall x y, In (x, y) l -> nx_wf (b_l s) (b_r s) x y) ->
+  let s' := fst (b_from_nx_edges s l) in
+  b_inv s' /\ snd (b_from_nx_edges s l) = Ok /\ b_l s' = b_l s /\ b_r s' = b_r s /\
+  forall u v, 1 <= u <= b_l s -> 1 <= v <= b_r s ->
+    (In (u, v) (b_es s') <-> In (u, v) (b_es s) \/ In (u, v + b_l s) l \/ In (v + b_l s, u) l).
+Proof.
+  induction l as [| [x y] r IH]; intros s I Hwf; cbn [b_from_nx_edges].
+  - cbn [fst snd In]. split; [auto | split; [auto | split; [auto | split; [auto | intros; tauto]]]].
+  - assert (Hxy : nx_wf (b_l s) (b_r s) x y) by (apply Hwf; left; auto).
+    assert (Hcase : (between 1 x (b_l s) = true /\ between (b_l s + 1) y (b_l s + b_r s) = true /\
+                     b_valid s x (y - b_l s) = true) \/
+                    (between 1 x (b_l s) = false /\ between (b_l s + 1) y (b_l s + b_r s) = false /\
+                     b_valid s y (x - b_l s) = true)).
+    { unfold nx_wf in Hxy. unfold b_valid, between. destruct Hxy as [[H1 H2] | [H1 H2]]; [left | right]; lia. }
+    destruct Hcase as [[B1 [B2 V]] | [B1 [B2 V]]]; rewrite B1, B2; cbn [negb Bool.eqb].
+    + destruct (b_add_edge_valid s x (y - b_l s) I V) as [I' [HO [Hl [Hr HE]]]].
+      destruct (b_add_edge s x (y - b_l s)) as [s1 o]. cbn [fst snd] in *. subst o.
+      destruct (IH s1 I') as [J1 [J2 [J3 [J4 J5]]]].
+      { intros a b Hab. rewrite Hl, Hr. apply Hwf. right; auto. }
+      split; [auto | split; [auto | split; [congruence | split; [congruence |]]]].
+      intros u v Hu Hv. rewrite J5 by lia. rewrite HE, Hl. cbn [In]. unfold between in B1, B2. split.
+      * intros [[H | H] | [H | H]]; auto. inversion H; subst. right; left; left. f_equal. lia.
+      * intros [H | [[H | H] | [H | H]]]; auto.
+        -- inversion H; subst. left; left. f_equal. lia.
+        -- inversion H; subst. exfalso. lia.
+    + destruct (b_add_edge_valid s y (x - b_l s) I V) as [I' [HO [Hl [Hr HE]]]].
+      destruct (b_add_edge s y (x - b_l s)) as [s1 o]. cbn [fst snd] in *. subst o.
+      destruct (IH s1 I') as [J1 [J2 [J3 [J4 J5]]]].
+      { intros a b Hab. rewrite Hl, Hr. apply Hwf. right; auto. }
+      split; [auto | split; [auto | split; [congruence | split; [congruence |]]]].
+      intros u v Hu Hv. rewrite J5 by lia. rewrite HE, Hl. cbn [In].
+      unfold nx_wf in Hxy. unfold between in B1, B2. split.
+      * intros [[H | H] | [H | H]]; auto. inversion H; subst. right; right; left. f_equal. lia.
+      * intros [H | [[H | H] | [H | H]]]; auto.
+        -- inversion H; subst. exfalso. lia.
+        -- inversion H; subst. left; left. f_equal. lia.
+Qed.
+
+Lemma b_roundtrip_general s l : b_inv s ->
+  (forall x y, In (x, y) l -> nx_wf (b_l s) (b_r s) x y) ->
+  (forall u v, 1 <= u <= b_l s -> 1 <= v <= b_r s ->
+     (In (u, v) (b_es s) <-> In (u, v + b_l s) l \/ In (v + b_l s, u) l)) ->
+  exists s', b_from_nx (b_l s) (b_r s) l = Some (s', Ok) /\ b_inv s' /\ b_view s' = b_view s.
+Proof.
+  intros I Hwf Hl. unfold b_from_nx.
+  destruct (b_init (b_l s) (b_r s)) as [s0 |] eqn:E0.
+  2:{ apply b_init_refused in E0. pose proof (bi_l s I). pose proof (bi_r s I). lia. }
+  destruct (b_init_ok _ _ _ E0) as [I0 A0].
+  assert (L0 : b_l s0 = b_l s) by (change (b_l s0) with (a_n (b_abs s0)); rewrite A0; reflexivity).
+  assert (R0 : b_r s0 = b_r s) by (change (b_r s0) with (a_r (b_abs s0)); rewrite A0; reflexivity).
+  assert (E00 : b_es s0 = []) by (change (b_es s0) with (a_E (b_abs s0)); rewrite A0; reflexivity).
+  destruct (b_from_nx_edges_ok l s0 I0) as [J1 [J2 [J3 [J4 J5]]]].
+  { intros x y Hxy. rewrite L0, R0. auto. }
+  exists (fst (b_from_nx_edges s0 l)). split; [| split; auto].
+  - destruct (b_from_nx_edges s0 l) as [s' o]. cbn [fst snd] in *. subst o. reflexivity.
+  - apply b_views_determined; auto; [congruence | congruence |].
+    intros [u v]. cbn [b_abs a_E]. split; intros H.
+    + destruct (bi_range _ J1 u v H) as [Hu Hv]. rewrite J3, L0 in Hu. rewrite J4, R0 in Hv.
+      apply J5 in H; [| lia | lia]. rewrite E00, L0 in H. cbn [In] in H. apply Hl; auto. tauto.
+    + destruct (bi_range s I u v H) as [Hu Hv]. apply J5; [lia | lia |]. rewrite L0. right. apply Hl; auto.
+Qed.
+
+Lemma b_roundtrip s : b_inv s ->
+  exists s', b_from_nx (fst (fst (b_to_nx s))) (snd (fst (b_to_nx s))) (snd (b_to_nx s)) = Some (s', Ok) /\
+             b_inv s' /\ b_view s' = b_view s.
+Proof.
+  intros I. cbn [b_to_nx fst snd]. destruct (b_view_edges s I) as [_ HE]. apply b_roundtrip_general; auto.
+  - intros x y H. apply in_map_iff in H. destruct H as [[u v] [E H]]. cbn [fst snd] in E. inversion E as [[E1 E2]]. clear E. subst x y.
+    apply HE in H. destruct (bi_range s I u v H) as [Hu Hv]. left. lia.
+  - intros u v Hu Hv. rewrite !in_map_iff. split.
+    + intros H. left. exists (u, v). split; [reflexivity | apply HE; auto].
+    + intros [[[a b] [E H]] | [[a b] [E H]]]; cbn [fst snd] in E; inversion E as [[E1 E2]]; clear E.
+      * assert (b = v) by lia. subst a b. apply HE; auto.
+      * apply HE in H. destruct (bi_range s I _ _ H) as [Ha Hb]. exfalso. lia.
+Qed.
+
+(* ====================================================================== 9. statements over every history
+   A state is reachable when it is the result of some finite op sequence run on a freshly
+   constructed object of some size. *)
+Definition g_reach (s : gstate) : Prop := exists n0 s0 ops, g_init n0 = Some s0 /\ s = g_run s0 ops.
+Definition d_reach (s : dstate) : Prop := exists n0 s0 ops, d_init n0 = Some s0 /\ s = d_run s0 ops.
+Definition b_reach (s : bstate) : Prop := exists l0 r0 s0 ops, b_init l0 r0 = Some s0 /\ s = b_run s0 ops.
+
+Lemma g_reach_inv s : g_reach s -> g_inv s.
+Proof. intros [n0 [s0 [ops [H E]]]]. subst s. apply g_run_ok. apply (g_init_ok n0); auto. Qed.
+Lemma d_reach_inv s : d_reach s -> d_inv s.
+Proof. intros [n0 [s0 [ops [H E]]]]. subst s. apply d_run_ok. apply (d_init_ok n0); auto. Qed.
+Lemma b_reach_inv s : b_reach s -> b_inv s.
+Proof. intros [l0 [r0 [s0 [ops [H E]]]]]. subst s. apply b_run_ok. apply (b_init_ok l0 r0); auto. Qed.
+
+Lemma g_reach_step s o : g_reach s -> g_reach (fst (g_step s o)).
+Proof.
+  intros [n0 [s0 [ops [H E]]]]. exists n0, s0, (ops ++ [o]). split; auto.
+  subst s. unfold g_run. rewrite fold_left_app. reflexivity.
+Qed.
+Lemma d_reach_step s o : d_reach s -> d_reach (fst (d_step s o)).
+Proof.
+  intros [n0 [s0 [ops [H E]]]]. exists n0, s0, (ops ++ [o]). split; auto.
+  subst s. unfold d_run. rewrite fold_left_app. reflexivity.
+Qed.
+Lemma b_reach_step s o : b_reach s -> b_reach (fst (b_step s o)).
+Proof.
+  intros [l0 [r0 [s0 [ops [H E]]]]]. exists l0, r0, s0, (ops ++ [o]). split; auto.
+  subst s. unfold b_run. rewrite fold_left_app. reflexivity.
+Qed.
+
+(* 9.1 refinement from the constructor on *)
+Theorem g_refinement n0 s0 ops : g_init n0 = Some s0 ->
+  g_abs (g_run s0 ops) = a_run KSimple (a_init KSimple n0 0) ops /\
+  outcomes g_step s0 ops = outcomes (a_step KSimple) (a_init KSimple n0 0) ops.
+Proof.
+  intros H. destruct (g_init_ok n0 s0 H) as [I A]. rewrite <- A.
+  destruct (g_run_ok ops s0 I) as [_ [H1 H2]]. auto.
+Qed.
+
+Theorem d_refinement n0 s0 ops : d_init n0 = Some s0 ->
+  d_abs (d_run s0 ops) = a_run KDirected (a_init KDirected n0 0) ops /\
+  outcomes d_step s0 ops = outcomes (a_step KDirected) (a_init KDirected n0 0) ops.
+Proof.
+  intros H. destruct (d_init_ok n0 s0 H) as [I A]. rewrite <- A.
+  destruct (d_run_ok ops s0 I) as [_ [H1 H2]]. auto.
+Qed.
+
+Theorem b_refinement l0 r0 s0 ops : b_init l0 r0 = Some s0 ->
+  b_abs (b_run s0 ops) = a_run KBipartite (a_init KBipartite l0 r0) ops /\
+  outcomes b_step s0 ops = outcomes (a_step KBipartite) (a_init KBipartite l0 r0) ops.
+Proof.
+  intros H. destruct (b_init_ok l0 r0 s0 H) as [I A]. rewrite <- A.
+  destruct (b_run_ok ops s0 I) as [_ [H1 H2]]. auto.
+Qed.
+
+(* 9.2 outcomes and refusals *)
+Theorem g_calls_never_crash s o : g_reach s ->
+  (snd (g_step s o) = Ok \/ snd (g_step s o) = ValueError) /\
+  (snd (g_step s o) <> Ok -> (forall l, o <> AddEdgesFrom l) -> fst (g_step s o) = s).
+Proof.
+  intros R. pose proof (g_reach_inv s R) as I. split; [apply g_step_outcome; auto |].
+  intros Hne Hno. apply g_step_error; auto.
+Qed.
+
+Theorem d_calls_never_crash s o : d_reach s ->
+  match o with
+  | RemoveEdge _ _ | RaiseN _ => d_step s o = (s, NoMethod)
+  | _ => snd (d_step s o) = Ok \/ snd (d_step s o) = ValueError
+  end /\
+  (snd (d_step s o) <> Ok -> (forall l, o <> AddEdgesFrom l) -> fst (d_step s o) = s).
+Proof.
+  intros R. pose proof (d_reach_inv s R) as I. split; [apply d_step_outcome; auto |].
+  intros Hne Hno. apply d_step_error; auto.
+Qed.
+
+Theorem b_calls_never_crash s o : b_reach s ->
+  match o with
+  | RemoveEdge _ _ | RaiseN _ => b_step s o = (s, NoMethod)
+  | _ => snd (b_step s o) = Ok \/ snd (b_step s o) = ValueError
+  end /\
+  (snd (b_step s o) <> Ok -> (forall l, o <> AddEdgesFrom l) -> fst (b_step s o) = s).
+Proof.
+  intros R. pose proof (b_reach_inv s R) as I. split; [apply b_step_outcome; auto |].
+  intros Hne Hno. apply b_step_error; auto.
+Qed.
+
+Theorem g_add_edges_from_stops_clean s l1 u v l2 : g_reach s ->
+  snd (add_from g_add_edge s l1) = Ok -> g_valid (fst (add_from g_add_edge s l1)) u v = false ->
+  g_step s (AddEdgesFrom (l1 ++ (u, v) :: l2)) = (fst (g_step s (AddEdgesFrom l1)), ValueError).
+Proof. intros R. apply g_add_from_refused. apply g_reach_inv; auto. Qed.
+Theorem d_add_edges_from_stops_clean s l1 u v l2 : d_reach s ->
+  snd (add_from d_add_edge s l1) = Ok -> d_valid (fst (add_from d_add_edge s l1)) u v = false ->
+  d_step s (AddEdgesFrom (l1 ++ (u, v) :: l2)) = (fst (d_step s (AddEdgesFrom l1)), ValueError).
+Proof. intros R. apply d_add_from_refused. apply d_reach_inv; auto. Qed.
+Theorem b_add_edges_from_stops_clean s l1 u v l2 : b_reach s ->
+  snd (add_from b_add_edge s l1) = Ok -> b_valid (fst (add_from b_add_edge s l1)) u v = false ->
+  b_step s (AddEdgesFrom (l1 ++ (u, v) :: l2)) = (fst (b_step s (AddEdgesFrom l1)), ValueError).
+Proof. intros R. apply b_add_from_refused. apply b_reach_inv; auto. Qed.
+
+Theorem g_add_edges_from_is_add_edge_loop s l : g_reach s -> snd (g_step s (AddEdgesFrom l)) = Ok ->
+  fst (g_step s (AddEdgesFrom l)) = g_run s (map (fun e => AddEdge (fst e) (snd e)) l).
+Proof. intros R. apply g_add_from_all_valid. apply g_reach_inv; auto. Qed.
+
+(* 9.3 every view is the named function of the abstraction *)
+Theorem g_views s : g_reach s ->
+  let A := g_abs s in
+  g_n s = a_n A /\
+  g_m s = Z.of_nat (length (a_E A)) /\
+  NoDup (a_E A) /\
+  (forall u v, g_has_edge s u v = a_has KSimple A u v) /\
+  (forall u v, g_has_edge s u v = g_has_edge s v u) /\
+  lex_sorted (g_edges s) /\ (forall e, In e (g_edges s) <-> In e (a_E A)) /\
+  (forall u, match g_neighbors s u with
+             | None => ~ (1 <= u <= a_n A) /\ g_degree s u = None
+             | Some l => 1 <= u <= a_n A /\ sorted l /\ (forall v, In v l <-> a_has KSimple A u v = true) /\
+                         g_degree s u = Some (Z.of_nat (length l))
+             end).
+Proof.
+  intros R A. pose proof (g_reach_inv s R) as I. subst A.
+  split; [reflexivity | split; [apply g_view_count; auto | split; [apply NoDup_filter'; apply gi_nodup; auto |]]].
+  split; [intros; apply g_view_has; auto | split; [intros; apply g_has_sym; auto |]].
+  destruct (g_view_edges s I) as [S M]. split; [auto | split; [auto |]].
+  intros u. pose proof (g_view_neighbors s u I) as N.
+  destruct (g_neighbors s u) eqn:E; [exact N | split; [exact N | apply g_degree_none; auto]].
+Qed.
+
+Theorem d_views s : d_reach s ->
+  let A := d_abs s in
+  d_n s = a_n A /\
+  d_m s = Z.of_nat (length (a_E A)) /\
+  NoDup (a_E A) /\
+  (forall u v, d_has_edge s u v = a_has KDirected A u v) /\
+  lex_sorted (d_edges s) /\ (forall e, In e (d_edges s) <-> In e (a_E A)) /\
+  lex_sorted (map swap (d_edges_by_dest s)) /\ (forall e, In e (d_edges_by_dest s) <-> In e (a_E A)) /\
+  (forall u, match d_successors s u with
+             | None => ~ (1 <= u <= a_n A)
+             | Some l => 1 <= u <= a_n A /\ sorted l /\ (forall v, In v l <-> a_has KDirected A u v = true) /\
+                         d_out_degree s u = Some (Z.of_nat (length l))
+             end) /\
+  (forall v, match d_predecessors s v with
+             | None => ~ (1 <= v <= a_n A)
+             | Some l => 1 <= v <= a_n A /\ sorted l /\ (forall u, In u l <-> a_has KDirected A u v = true) /\
+                         d_in_degree s v = Some (Z.of_nat (length l))
+             end) /\
+  (d_dag s = true <-> forall u v, In (u, v) (a_E A) -> u < v).
+Proof.
+  intros R A. pose proof (d_reach_inv s R) as I. subst A.
+  split; [reflexivity | split; [apply d_view_count; auto | split; [apply di_nodup; auto |]]].
+  split; [intros; apply d_view_has |].
+  destruct (d_view_edges s I) as [S M]. split; [auto | split; [auto |]].
+  destruct (d_view_edges_by_dest s I) as [S2 M2]. split; [auto | split; [auto |]].
+  split; [intros u; apply d_view_successors; auto |].
+  split; [intros u; apply d_view_predecessors; auto |].
+  apply d_view_dag_iff; auto.
+Qed.
+
+Theorem b_views s : b_reach s ->
+  let A := b_abs s in
+  b_l s = a_n A /\ b_r s = a_r A /\
+  b_number_of_edges s = Z.of_nat (length (a_E A)) /\
+  NoDup (a_E A) /\
+  (forall u v, b_has_edge s u v = a_has KBipartite A u v) /\
+  lex_sorted (b_edges s) /\ (forall e, In e (b_edges s) <-> In e (a_E A)) /\
+  (forall u, match b_right_neighbors s u with
+             | None => ~ (1 <= u <= a_n A)
+             | Some l => 1 <= u <= a_n A /\ sorted l /\ (forall v, In v l <-> a_has KBipartite A u v = true) /\
+                         b_right_degree s u = Some (Z.of_nat (length l))
+             end) /\
+  (forall v, match b_left_neighbors s v with
+             | None => ~ (1 <= v <= a_r A)
+             | Some l => 1 <= v <= a_r A /\ sorted l /\ (forall u, In u l <-> a_has KBipartite A u v = true) /\
+                         b_left_degree s v = Some (Z.of_nat (length l))
+             end).
+Proof.
+  intros R A. pose proof (b_reach_inv s R) as I. subst A.
+  split; [reflexivity | split; [reflexivity | split; [reflexivity | split; [apply bi_nodup; auto |]]]].
+  split; [intros; apply b_view_has |].
+  destruct (b_view_edges s I) as [S M]. split; [auto | split; [auto |]].
+  split; [intros u; apply b_view_right_neighbors; auto | intros u; apply b_view_left_neighbors; auto].
+Qed.
+
+(* the abstract edge set only holds admissible edges, each once *)
+Theorem g_abs_wellformed s : g_reach s -> forall u v, In (u, v) (a_E (g_abs s)) -> 1 <= u /\ u < v /\ v <= g_n s.
+Proof.
+  intros R u v H. pose proof (g_reach_inv s R) as I. cbn [g_abs a_E] in H. apply filter_In in H.
+  destruct H as [H L]. rewrite ltp_pair in L. destruct (gi_range s I u v H). lia.
+Qed.
+Theorem d_abs_wellformed s : d_reach s -> forall u v, In (u, v) (a_E (d_abs s)) -> 1 <= u <= d_n s /\ 1 <= v <= d_n s.
+Proof. intros R u v H. apply (di_range s (d_reach_inv s R)); auto. Qed.
+Theorem b_abs_wellformed s : b_reach s -> forall u v, In (u, v) (a_E (b_abs s)) -> 1 <= u <= b_l s /\ 1 <= v <= b_r s.
+Proof. intros R u v H. apply (bi_range s (b_reach_inv s R)); auto. Qed.
+
+(* 9.4 duplicates *)
+Theorem g_duplicate s u v : g_reach s -> g_has_edge s u v = true \/ g_has_edge s v u = true ->
+  g_step s (AddEdge u v) = (s, Ok) \/ g_step s (AddEdge u v) = (s, ValueError).
+Proof.
+  intros R H. pose proof (g_reach_inv s R) as I. cbn [g_step].
+  destruct (g_valid s u v) eqn:V; [left; apply g_duplicate_noop; auto |].
+  right. unfold g_add_edge. rewrite V. reflexivity.
+Qed.
+Theorem d_duplicate s u v : d_reach s -> d_has_edge s u v = true -> d_step s (AddEdge u v) = (s, Ok).
+Proof.
+  intros R H. pose proof (d_reach_inv s R) as I. cbn [d_step]. apply d_duplicate_noop; auto.
+  unfold d_has_edge in H. apply set_mem_In in H. destruct (di_range s I u v H).
+  unfold d_valid, between. lia.
+Qed.
+Theorem b_duplicate s u v : b_reach s -> b_has_edge s u v = true -> b_step s (AddEdge u v) = (s, Ok).
+Proof.
+  intros R H. pose proof (b_reach_inv s R) as I. cbn [b_step]. apply b_duplicate_noop; auto.
+  unfold b_has_edge in H. apply set_mem_In in H. destruct (bi_range s I u v H).
+  unfold b_valid, between. lia.
+Qed.
+
+(* 9.5 the views do not depend on the history, only on vertex count and edge set *)
+Theorem g_history_independent s1 s2 : g_reach s1 -> g_reach s2 -> g_n s1 = g_n s2 ->
+  (forall e, In e (a_E (g_abs s1)) <-> In e (a_E (g_abs s2))) -> g_view s1 = g_view s2.
+Proof. intros R1 R2. apply g_views_determined; apply g_reach_inv; auto. Qed.
+Theorem d_history_independent s1 s2 : d_reach s1 -> d_reach s2 -> d_n s1 = d_n s2 ->
+  (forall e, In e (a_E (d_abs s1)) <-> In e (a_E (d_abs s2))) -> d_view s1 = d_view s2.
+Proof. intros R1 R2. apply d_views_determined; apply d_reach_inv; auto. Qed.
+Theorem b_history_independent s1 s2 : b_reach s1 -> b_reach s2 -> b_l s1 = b_l s2 -> b_r s1 = b_r s2 ->
+  (forall e, In e (a_E (b_abs s1)) <-> In e (a_E (b_abs s2))) -> b_view s1 = b_view s2.
+Proof. intros R1 R2. apply b_views_determined; apply b_reach_inv; auto. Qed.
+
+(* 9.6 networkx *)
+Theorem g_networkx_roundtrip s : g_reach s ->
+  (forall l, (forall u v, In (u, v) (g_es s) <-> In (u, v) l \/ In (v, u) l) ->
+     exists s', g_from_nx (g_n s) l = Some (s', Ok) /\ g_view s' = g_view s) /\
+  exists s', g_from_nx (fst (g_to_nx s)) (snd (g_to_nx s)) = Some (s', Ok) /\ g_view s' = g_view s.
+Proof.
+  intros R. pose proof (g_reach_inv s R) as I. split.
+  - intros l H. destruct (g_roundtrip_general s l I H) as [s' [H1 [_ H2]]]. eauto.
+  - destruct (g_roundtrip s I) as [s' [H1 [_ H2]]]. eauto.
+Qed.
+Theorem d_networkx_roundtrip s : d_reach s ->
+  (forall l, (forall e, In e l <-> In e (d_es s)) ->
+     exists s', d_from_nx (d_n s) l = Some (s', Ok) /\ d_view s' = d_view s) /\
+  exists s', d_from_nx (fst (d_to_nx s)) (snd (d_to_nx s)) = Some (s', Ok) /\ d_view s' = d_view s.
+Proof.
+  intros R. pose proof (d_reach_inv s R) as I. split.
+  - intros l H. destruct (d_roundtrip_general s l I H) as [s' [H1 [_ H2]]]. eauto.
+  - destruct (d_roundtrip s I) as [s' [H1 [_ H2]]]. eauto.
+Qed.
+Theorem b_networkx_roundtrip s : b_reach s ->
+  (forall l, (forall x y, In (x, y) l -> nx_wf (b_l s) (b_r s) x y) ->
+     (forall u v, 1 <= u <= b_l s -> 1 <= v <= b_r s ->
+        (In (u, v) (b_es s) <-> In (u, v + b_l s) l \/ In (v + b_l s, u) l)) ->
+     exists s', b_from_nx (b_l s) (b_r s) l = Some (s', Ok) /\ b_view s' = b_view s) /\
+  exists s', b_from_nx (fst (fst (b_to_nx s))) (snd (fst (b_to_nx s))) (snd (b_to_nx s)) = Some (s', Ok) /\
+             b_view s' = b_view s.
+Proof.
+  intros R. pose proof (b_reach_inv s R) as I. split.
+  - intros l H1 H2. destruct (b_roundtrip_general s l I H1 H2) as [s' [J1 [_ J2]]]. eauto.
+  - destruct (b_roundtrip s I) as [s' [H1 [_ H2]]]. eauto.
+Qed.
+
+(* the edge lists handed to networkx are the abstraction's edges (bipartite: right ends shifted by L) *)
+Theorem to_nx_edges s : g_reach s -> fst (g_to_nx s) = a_n (g_abs s) /\ forall e, In e (snd (g_to_nx s)) <-> In e (a_E (g_abs s)).
+Proof. intros R. split; [reflexivity |]. apply g_view_edges. apply g_reach_inv; auto. Qed.
